@@ -48,6 +48,10 @@ type Case struct {
 	ErrCol  int    `json:"err_col,omitempty"`
 	ErrEnd  int    `json:"err_end_col,omitempty"`
 	ErrKind string `json:"err_kind,omitempty"`
+	// ErrFromCompiler: the expected position is the one the directly invoked compiler reports
+	ErrFromCompiler bool `json:"err_from_compiler,omitempty"`
+	// CLIFileRef: the CLI input is <file>#include_package_files=true instead of the workspace directory
+	CLIFileRef bool `json:"cli_file_ref,omitempty"`
 	// model-derived expectations (kept in the case so replay needs no generator)
 	Imports       map[string][]string `json:"imports"`        // path -> import paths (model)
 	PlantedUnused map[string][]string `json:"planted_unused"` // path -> imports planted as unused
@@ -231,7 +235,11 @@ func buildCLI(ctx context.Context, t interface{ Fatalf(string, ...any) }, c *Cas
 		t.Fatalf("harness: %v", err)
 	}
 	env := map[string]string{"HOME": tmp, "BUF_CACHE_DIR": filepath.Join(tmp, ".cache"), "PATH": os.Getenv("PATH")}
-	code, stdout, stderr := bufcli.Run(ctx, env, "", "build", tmp, "-o", "-")
+	input := tmp
+	if c.CLIFileRef && c.ErrFile != "" {
+		input = filepath.Join(tmp, filepath.FromSlash(moduleOf(c, c.ErrFile).Dir), filepath.FromSlash(c.ErrFile)) + "#include_package_files=true"
+	}
+	code, stdout, stderr := bufcli.Run(ctx, env, "", "build", input, "-o", "-")
 	if code != 0 {
 		return nil, &cliError{code: code, stderr: stderr}, tmp
 	}
@@ -714,8 +722,27 @@ func TestCompileError(t *testing.T) {
 		txt := c.Files[mod.Dir][cd.file.Path]
 		lines := strings.Split(txt, "\n")
 		line := lines[ep.Type.Line-1]
-		kind := []string{"unknown-type", "duplicate-number-zero", "syntax-error"}[rapid.IntRange(0, 2).Draw(t, "errkind")]
+		kind := []string{"unknown-type", "duplicate-number-zero", "syntax-error", "statement-no-semicolon"}[rapid.IntRange(0, 3).Draw(t, "errkind")]
+		if kind == "statement-no-semicolon" {
+			// a package or import statement without its semicolon: reported by whatever reads the file first
+			// (the import scanner for package-file targeting and dependency computation, else the parser)
+			var stmts []int
+			for i, l := range lines {
+				if (strings.HasPrefix(l, "package ") || strings.HasPrefix(l, "import ")) && strings.HasSuffix(l, ";") {
+					stmts = append(stmts, i)
+				}
+			}
+			if len(stmts) == 0 {
+				kind = "syntax-error"
+			} else {
+				i := stmts[rapid.IntRange(0, len(stmts)-1).Draw(t, "stmt")]
+				lines[i] = strings.TrimSuffix(lines[i], ";")
+				c.ErrFromCompiler = true
+				line = lines[ep.Type.Line-1]
+			}
+		}
 		switch kind {
+		case "statement-no-semicolon":
 		case "unknown-type":
 			// replace the type token by an unresolvable name of the same position
 			end := ep.Type.Col - 1 + len(typeTokenAt(line, ep.Type.Col-1))
@@ -738,6 +765,14 @@ func TestCompileError(t *testing.T) {
 		c.Backend = []string{"mem", "disk", "disk"}[rapid.IntRange(0, 2).Draw(t, "ebackend")]
 		if rapid.IntRange(0, 15).Draw(t, "ecli") == 0 {
 			c.Backend = "cli"
+		}
+		// sometimes the erroneous file itself is the target, as a proto file reference (with its package files)
+		if rapid.IntRange(0, 2).Draw(t, "efileref") == 0 {
+			if c.Backend == "cli" {
+				c.CLIFileRef = true
+			} else {
+				c.Specs[mod.Dir] = bufx.ModuleSpec{Target: true, ProtoFile: cd.file.Path, IncludePkg: rapid.Bool().Draw(t, "eincludepkg")}
+			}
 		}
 		runError(ctx, t, r, c)
 	})
@@ -774,9 +809,19 @@ func runError(ctx context.Context, t interface {
 	if ref.Err == nil || len(ref.Errors) == 0 {
 		t.Fatalf("harness: planted error %s in %s was accepted by the compiler", c.ErrKind, c.ErrFile)
 	}
+	if c.ErrFromCompiler {
+		e0 := ref.Errors[0]
+		if e0.File != c.ErrFile {
+			t.Fatalf("harness: compiler reports the planted %s in %s, not in %s", c.ErrKind, e0.File, c.ErrFile)
+		}
+		c.ErrLine, c.ErrCol, c.ErrEnd = e0.Line, e0.Col, e0.Col
+	}
 	img, err, _ := buildCase(ctx, t, c, tmp)
 	r.Eval()
 	r.Class("error:" + c.ErrKind)
+	if c.CLIFileRef || c.Specs[moduleOf(c, c.ErrFile).Dir].ProtoFile != "" {
+		r.Class("error-target:proto-file-ref")
+	}
 	r.Class("error-backend:" + c.Backend)
 	m := moduleOf(c, c.ErrFile)
 	files := protogen.SortedPaths(allSources(c))
